@@ -115,6 +115,11 @@ pub enum Fault {
     SetSecondary { edits: Vec<(u16, SVal)> },
     /// xor bytes of an index file: (position selector, xor mask)
     FlipBytes { file: FileKind, edits: Vec<(u16, u8)> },
+    /// every primary offset from the selected index on repeats the offset found there: the rest of the relative slots
+    /// reads as one long run of empty slots
+    FreezePrimaryFrom { sel: u16 },
+    /// the primary index replaced by its version byte and `slots` zero offsets
+    ZeroPrimary { slots: u32 },
 }
 
 #[derive(Debug, Clone, Serialize, Deserialize)]
@@ -123,6 +128,10 @@ pub struct Case {
     pub fault: Fault,
     /// also drive the directory-level API (read_blocks, get_tip, read_blocks_from_point)
     pub db_level: bool,
+    /// run the readers in the unoptimised build of the library (opt-level 0, 2 MiB thread stack), where recursion that
+    /// an optimiser turns into a loop really recurses
+    #[serde(default)]
+    pub opt0: bool,
 }
 
 #[derive(Debug, Clone, Serialize, Deserialize)]
@@ -281,7 +290,18 @@ fn load_truth() -> HashSet<u64> {
 
 /// Entry point of the isolated worker (`<exe> --c43-worker`): serves one request per stdin line
 /// (`Request` as JSON), answering with `STEP <name>` progress lines and one `RESULT <Outcome>` line.
-pub fn worker_main(_args: &[String]) -> ! {
+pub fn worker_main(args: &[String]) -> ! {
+    if let Some(sz) = std::env::var("PV_C43_WORKER_STACK").ok().and_then(|v| v.parse::<usize>().ok()) {
+        std::env::remove_var("PV_C43_WORKER_STACK");
+        let a = args.to_vec();
+        let h = std::thread::Builder::new().stack_size(sz).spawn(move || worker_loop(&a)).expect("spawn worker thread");
+        let _ = h.join();
+        std::process::exit(3)
+    }
+    worker_loop(args)
+}
+
+fn worker_loop(_args: &[String]) -> ! {
     use std::io::{BufRead, Write};
     let truth = load_truth();
     let truth = if truth.is_empty() { None } else { Some(&truth) };
@@ -327,9 +347,14 @@ enum Line {
 }
 
 impl Worker {
-    fn spawn(exe: &Path, truth_file: &Path) -> std::io::Result<Worker> {
+    fn spawn(exe: &Path, truth_file: &Path, opt0: bool) -> std::io::Result<Worker> {
         use std::process::Stdio;
-        let mut child = std::process::Command::new(exe)
+        let mut cmd = std::process::Command::new(exe);
+        if opt0 {
+            // the stack a spawned thread (and every `cargo test` test) gets by default
+            cmd.env("PV_C43_WORKER_STACK", (2usize << 20).to_string());
+        }
+        let mut child = cmd
             .arg("--c43-worker")
             .env("PV_C43_TRUTH", truth_file)
             .stdin(Stdio::piped())
@@ -384,6 +409,7 @@ impl Drop for Worker {
 
 thread_local! {
     static WORKER: std::cell::RefCell<Option<Worker>> = const { std::cell::RefCell::new(None) };
+    static WORKER0: std::cell::RefCell<Option<Worker>> = const { std::cell::RefCell::new(None) };
 }
 
 fn case_timeout() -> std::time::Duration {
@@ -391,14 +417,15 @@ fn case_timeout() -> std::time::Duration {
     std::time::Duration::from_secs(s)
 }
 
-fn run_in_worker(exe: &Path, truth_file: &Path, dir: &Path, name: &str, db_level: bool, probes: &[Probe]) -> Outcome {
+fn run_in_worker(exe: &Path, truth_file: &Path, dir: &Path, name: &str, db_level: bool, probes: &[Probe], opt0: bool) -> Outcome {
     use std::io::{Read, Write};
     use std::os::unix::process::ExitStatusExt;
     let harness_fail = |m: String| Outcome { fails: vec![("harness:worker-io".into(), m)], classes: vec![] };
-    WORKER.with(|slot| {
+    let key = if opt0 { &WORKER0 } else { &WORKER };
+    key.with(|slot| {
         let mut slot = slot.borrow_mut();
         if slot.is_none() {
-            match Worker::spawn(exe, truth_file) {
+            match Worker::spawn(exe, truth_file, opt0) {
                 Ok(w) => *slot = Some(w),
                 Err(e) => return harness_fail(format!("spawn: {e}")),
             }
@@ -483,6 +510,8 @@ pub struct Ctx {
     probes: Vec<Vec<Probe>>,
     deep_probes: Vec<Vec<Probe>>,
     exe: PathBuf,
+    /// the same binary built with the `opt0` profile (PV_C43_OPT0_WORKER, set by ./check), if there is one
+    exe0: Option<PathBuf>,
     truth_file: PathBuf,
     _mini_dir: TempDir,
 }
@@ -548,6 +577,24 @@ fn apply(ctx: &Ctx, target: Target, fault: &Fault) -> Vec<(FileKind, Option<Vec<
             }
             vec![(FileKind::Secondary, Some(o))]
         }
+        Fault::FreezePrimaryFrom { sel } => {
+            let mut o = orig(FileKind::Primary).clone();
+            let n = (o.len().saturating_sub(1)) / 4;
+            if n > 0 {
+                let i = pvkit::pick_idx(*sel, n);
+                let v = imm::be32(&o[1 + 4 * i..]).to_be_bytes();
+                for k in i..n {
+                    o[1 + 4 * k..5 + 4 * k].copy_from_slice(&v);
+                }
+            }
+            vec![(FileKind::Primary, Some(o))]
+        }
+        Fault::ZeroPrimary { slots } => {
+            let ver = orig(FileKind::Primary).first().copied().unwrap_or(1);
+            let mut o = vec![ver];
+            o.extend(std::iter::repeat(0u8).take(4 * *slots as usize));
+            vec![(FileKind::Primary, Some(o))]
+        }
         Fault::FlipBytes { file, edits } => {
             let mut o = orig(*file).clone();
             for (sel, x) in edits {
@@ -572,6 +619,8 @@ fn fault_class(f: &Fault) -> String {
         Fault::SetPrimary { .. } => "fault:primary-offsets".into(),
         Fault::SetSecondary { .. } => "fault:secondary-offsets".into(),
         Fault::FlipBytes { file, .. } => format!("fault:flip-{}", file.ext()),
+        Fault::FreezePrimaryFrom { .. } => "fault:primary-frozen-tail".into(),
+        Fault::ZeroPrimary { .. } => "fault:primary-all-zero".into(),
     }
 }
 
@@ -616,7 +665,19 @@ fn check(s: &Session, ctx: &Ctx, c: &Case, obs: &mut Obs) -> Result<(), Fail> {
         probes.extend(ctx.deep_probes[c.target.idx()].iter().cloned());
     }
     let probes = &probes[..];
-    let out = run_in_worker(&ctx.exe, &ctx.truth_file, dir.path(), c.target.name(), c.db_level, probes);
+    let exe = match (c.opt0, &ctx.exe0) {
+        (true, Some(e)) => e,
+        (true, None) => {
+            obs.class("unoptimised-worker-not-built");
+            obs.discard();
+            return Ok(());
+        }
+        _ => &ctx.exe,
+    };
+    if c.opt0 {
+        obs.class("worker:unoptimised-build");
+    }
+    let out = run_in_worker(exe, &ctx.truth_file, dir.path(), c.target.name(), c.db_level, probes, c.opt0);
     drop(dir);
     for cl in &out.classes {
         obs.class(cl.clone());
@@ -690,7 +751,7 @@ fn corrupt_case() -> impl Strategy<Value = Case> {
     (target, fault, 0u8..8).prop_map(|(target, fault, d)| {
         // directory level always for the small target, 1 in 8 for the big ones
         let db_level = target == Target::Mini || d == 0;
-        Case { target, fault, db_level }
+        Case { target, fault, db_level, opt0: false }
     })
 }
 
@@ -755,7 +816,8 @@ fn setup() -> Result<Ctx, String> {
         tb.extend_from_slice(&fnv64(&b.bytes).to_le_bytes());
     }
     std::fs::write(&truth_file, tb).map_err(|e| e.to_string())?;
-    Ok(Ctx { files, paths, probes, deep_probes, truth_file, exe: std::env::current_exe().map_err(|e| e.to_string())?, _mini_dir: mini_dir })
+    Ok(Ctx { files, paths, probes, deep_probes, truth_file, exe: std::env::current_exe().map_err(|e| e.to_string())?,
+        exe0: std::env::var_os("PV_C43_OPT0_WORKER").map(PathBuf::from).filter(|p| p.is_file()), _mini_dir: mini_dir })
 }
 
 pub fn run(s: &Session) {
@@ -796,13 +858,13 @@ fn run_inner(s: &Session) {
     // 0. intact databases (harness sanity) + missing / empty files
     let mut fam = vec![];
     for t in all_targets {
-        fam.push(Case { target: t, fault: Fault::None, db_level: true });
+        fam.push(Case { target: t, fault: Fault::None, db_level: true, opt0: false });
         for f in files {
-            fam.push(Case { target: t, fault: Fault::Missing { file: f }, db_level: true });
-            fam.push(Case { target: t, fault: Fault::Truncate { file: f, len: 0 }, db_level: true });
+            fam.push(Case { target: t, fault: Fault::Missing { file: f }, db_level: true, opt0: false });
+            fam.push(Case { target: t, fault: Fault::Truncate { file: f, len: 0 }, db_level: true, opt0: false });
             for g in files {
                 if f.idx() < g.idx() {
-                    fam.push(Case { target: t, fault: Fault::MissingTwo { a: f, b: g }, db_level: true });
+                    fam.push(Case { target: t, fault: Fault::MissingTwo { a: f, b: g }, db_level: true, opt0: false });
                 }
             }
         }
@@ -815,7 +877,7 @@ fn run_inner(s: &Session) {
     for (t, f) in [(Target::Mini, FileKind::Primary), (Target::Mini, FileKind::Secondary), (Target::C02019, FileKind::Primary), (Target::C02019, FileKind::Secondary)] {
         let n = ctx.files[t.idx()][f.idx()].len();
         for len in 0..n {
-            fam.push(Case { target: t, fault: Fault::Truncate { file: f, len: len as u32 }, db_level: true });
+            fam.push(Case { target: t, fault: Fault::Truncate { file: f, len: len as u32 }, db_level: true, opt0: false });
         }
     }
     s.foreach("truncate-small-index", fam, true, ck);
@@ -837,7 +899,7 @@ fn run_inner(s: &Session) {
         lens.extend((0..n).step_by(s.pick(211, 1)));
         lens.insert(n - 1);
         for len in lens {
-            fam.push(Case { target: Target::Mini, fault: Fault::Truncate { file: FileKind::Chunk, len: len as u32 }, db_level: true });
+            fam.push(Case { target: Target::Mini, fault: Fault::Truncate { file: FileKind::Chunk, len: len as u32 }, db_level: true, opt0: false });
         }
     }
     s.foreach("truncate-mini-chunk", fam, !quick, ck);
@@ -862,14 +924,14 @@ fn run_inner(s: &Session) {
                 lens.extend(0..n);
             }
             for (i, len) in lens.into_iter().filter(|l| *l < n).enumerate() {
-                fam.push(Case { target: t, fault: Fault::Truncate { file: f, len: len as u32 }, db_level: i % s.pick(40, 200) == 0 });
+                fam.push(Case { target: t, fault: Fault::Truncate { file: f, len: len as u32 }, db_level: i % s.pick(40, 200) == 0, opt0: false });
             }
         }
         // big chunk file cut at / inside blocks
         let sec = imm::secondary_entries(&ctx.files[t.idx()][2]).unwrap();
         for k in (1..sec.len()).step_by(s.pick(97, 7)) {
             for d in [0u64, 1, 100] {
-                fam.push(Case { target: t, fault: Fault::Truncate { file: FileKind::Chunk, len: (sec[k].block_offset + d) as u32 }, db_level: k % 2 == 1 });
+                fam.push(Case { target: t, fault: Fault::Truncate { file: FileKind::Chunk, len: (sec[k].block_offset + d) as u32 }, db_level: k % 2 == 1, opt0: false });
             }
         }
     }
@@ -886,7 +948,7 @@ fn run_inner(s: &Session) {
             // selector that maps back to i
             let sel = sel_for(i, n_off);
             for v in pvals {
-                fam.push(Case { target: Target::Mini, fault: Fault::SetPrimary { edits: vec![(sel, v)] }, db_level: true });
+                fam.push(Case { target: Target::Mini, fault: Fault::SetPrimary { edits: vec![(sel, v)] }, db_level: true, opt0: false });
             }
         }
         let svals = [SVal::Zero, SVal::PrevMinus(1), SVal::PrevMinus(3000), SVal::EqPrev, SVal::Plus(1), SVal::Plus(3000), SVal::EofPlus(0),
@@ -894,11 +956,32 @@ fn run_inner(s: &Session) {
         for i in 0..MINI_BLOCKS {
             let sel = sel_for(i, MINI_BLOCKS);
             for v in svals {
-                fam.push(Case { target: Target::Mini, fault: Fault::SetSecondary { edits: vec![(sel, v)] }, db_level: true });
+                fam.push(Case { target: Target::Mini, fault: Fault::SetSecondary { edits: vec![(sel, v)] }, db_level: true, opt0: false });
             }
         }
     }
     s.foreach("overwrite-offsets-mini", fam, false, ck);
+
+    // 4b. long runs of empty relative slots (offsets that stop advancing; an all-zero primary index), in the optimised
+    // build and again in the unoptimised one, where a skip-the-empties recursion is not turned into a loop
+    let mut fam = vec![];
+    for opt0 in [false, true] {
+        for t in all_targets {
+            for sel in [0u16, 1, 300, 0x4000, 0x8000, 0xfff0] {
+                for db_level in [false, true] {
+                    fam.push(Case { target: t, fault: Fault::FreezePrimaryFrom { sel }, db_level, opt0 });
+                }
+            }
+            for slots in [1u32, 21_600, 60_000, 90_000] {
+                fam.push(Case { target: t, fault: Fault::ZeroPrimary { slots }, db_level: slots % 2 == 0, opt0 });
+            }
+        }
+        fam.push(Case { target: Target::C01836, fault: Fault::None, db_level: true, opt0 });
+    }
+    s.foreach("long-empty-runs", fam, true, ck);
+    if !s.replaying() {
+        s.health(s.class_count("unoptimised-worker-not-built") == 0, "the unoptimised worker (PV_C43_OPT0_WORKER, built by ./check) is missing: the long-empty-runs family ran in the optimised build only");
+    }
 
     // 5. random combinations, all targets
     s.forall("random-corruption", s.pick(1_200, 20_000), corrupt_case, ck);
